@@ -374,18 +374,19 @@ theorem good_removeM {b : Prop} (env : Env) (path : Str) (s : State) (h : Good b
     simp only [getEntry_apply]
     cases hx : alLookup p s.entries with
     | none =>
-      simp only [bind_apply, mpure_apply]
-      exact good_removeTail p s h (by intro e he; unfold EL at he; rw [hx] at he; cases he)
+      simp only [bind_apply, mpure_apply, getEntry_apply, hx, Option.isNone_none, if_true]
+      exact h
     | some e =>
       dsimp only
       cases hf : e.files with
       | none =>
-        simp only [bind_apply, mpure_apply]
+        simp only [bind_apply, mpure_apply, getEntry_apply, hx, Option.isNone_some, Bool.false_eq_true, if_false]
         exact good_removeTail p s h (by intro e' he; unfold EL at he; rw [hx] at he; cases he; exact Or.inl hf)
       | some fs =>
         cases fs with
         | nil =>
-          simp only [List.isEmpty_nil, Bool.not_true, Bool.false_eq_true, if_false, bind_apply, mpure_apply]
+          simp only [List.isEmpty_nil, Bool.not_true, Bool.false_eq_true, if_false, bind_apply, mpure_apply,
+            getEntry_apply, hx, Option.isNone_some]
           exact good_removeTail p s h (by intro e' he; unfold EL at he; rw [hx] at he; cases he; exact Or.inr hf)
         | cons n ns =>
           simp only [List.isEmpty_cons, Bool.not_false, if_true, bind_apply, fail_apply]
